@@ -255,6 +255,10 @@ func (p *Proc) modScan(fi *FuncInfo, info *types.Info, n ast.Node, depth int) *m
 				return true
 			}
 			if p.droppedFn(fn) {
+				switch funcKeyOf(fn) {
+				case "sync.(*Mutex).Lock", "sync.(*RWMutex).Lock", "sync.(*Mutex).Unlock", "sync.(*RWMutex).Unlock":
+					m.heap["G:$held"] = ArrSort(SInt, SInt)
+				}
 				return true
 			}
 			m.heap["G:$calls:"+fn.Name()] = SInt
